@@ -285,6 +285,9 @@ def leaves_2d():
         L["AdditiveCoupling:" + tag] = lambda mask=mask: T.AdditiveCouplingTransform(mask, rn)
         for cls in ("PiecewiseLinearCouplingTransform", "PiecewiseQuadraticCouplingTransform", "PiecewiseCubicCouplingTransform", "PiecewiseRationalQuadraticCouplingTransform"):
             L[cls.replace("CouplingTransform", "Cpl") + ":" + tag] = lambda mask=mask, cls=cls: getattr(T, cls)(mask, rn, num_bins=3, tails="linear", tail_bound=2.5)
+    # couplings that also transform their identity feature (its log-det must be counted in both directions)
+    L["PiecewiseRationalQuadraticCpl:10:uncond"] = lambda: T.PiecewiseRationalQuadraticCouplingTransform([1, 0], rn, num_bins=3, tails="linear", tail_bound=2.5, apply_unconditional_transform=True)
+    L["PiecewiseQuadraticCpl:01:uncond"] = lambda: T.PiecewiseQuadraticCouplingTransform([0, 1], rn, num_bins=3, tails="linear", tail_bound=2.5, apply_unconditional_transform=True)
     L["MaskedAffineAR"] = lambda: T.MaskedAffineAutoregressiveTransform(2, 4, num_blocks=1, activation=torch.tanh)
     L["MaskedQuadraticAR"] = lambda: T.MaskedPiecewiseQuadraticAutoregressiveTransform(2, 4, num_bins=3, tails="linear", tail_bound=2.5, num_blocks=1, activation=torch.tanh)
     L["MaskedRQAR"] = lambda: T.MaskedPiecewiseRationalQuadraticAutoregressiveTransform(2, 4, num_bins=3, tails="linear", tail_bound=2.5, num_blocks=1, activation=torch.tanh)
